@@ -121,7 +121,7 @@ func (p c09) RunBatch(ctx *core.Ctx, batch int) {
 // c09DeepParens: many redundant pairs (3 … 128, around 23-25 and powers of two) around the whole
 // query, around one operand of an explicit operator, and around one field value.
 func c09DeepParens(ctx *core.Ctx, t *qt.Node, r *rand.Rand) {
-	depths := []int{3, 8, 15, 16, 17, 22, 23, 24, 25, 31, 32, 33, 64, 128}
+	depths := gen.Sizes([]int{3, 8, 15, 16, 17, 22, 23, 24, 25, 31, 32, 33, 64, 128}, 3, 400)
 	base := qt.Print(t, qt.Style{})
 	n := depths[r.Intn(len(depths))]
 	v := qt.Print(t, qt.Style{WrapAll: n})
@@ -163,7 +163,7 @@ var c09Units = [][]string{
 // in three layouts: single spaces, no space next to a symbol, long whitespace runs.
 func c09Long(ctx *core.Ctx, k int) {
 	r := ctx.Rand("long")
-	lens := []int{1, 2, 3, 4, 5, 6, 7, 8, 9, 10, 11, 12, 13, 14, 15, 16, 17, 18, 19, 20, 24, 31, 32, 33, 48, 64, 100, 200, 400}
+	lens := gen.Sizes([]int{1, 2, 3, 4, 5, 6, 7, 8, 9, 10, 11, 12, 13, 14, 15, 16, 17, 18, 19, 20, 24, 31, 32, 33, 48, 64, 100, 200, 400}, 1, 1200)
 	joins := [][]string{nil, {"AND"}, {"OR"}}
 	emit := func(toks []string) {
 		base := strings.Join(toks, " ")
@@ -195,6 +195,22 @@ func c09Long(ctx *core.Ctx, k int) {
 		ctx.Count("long_chains", 1)
 	}
 	if k == 0 {
+		for _, t := range qt.RelationTrees() {
+			c09Tree(ctx, t.Clone(), r)
+		}
+		// a symbol written directly behind a word that looks like the beginning of something
+		// longer (an exponent, a hex prefix, a dotted or dashed word) must still be its own token
+		words := []string{"1e", "2.5E", "10e", "1E", "5e", "1e5", "0x", "0x1p", "007", "1.", "a.b", "x-y", "a.", "x-", "1_000", "\u00e9", "\u0131", "NaN", "inf", "w*", "q?", "to", "or"}
+		syms := []string{"+", ":", "=", ">", "<", "~", "^", "(", ")", "[", "]", "{", "}"}
+		for _, w := range words {
+			for _, sy := range syms {
+				for _, nx := range []string{"5", "a", "2.5", "x1"} {
+					emit([]string{w, sy, nx})
+					emit([]string{"f", ":", w, sy, nx})
+					emit([]string{"a", "OR", w, sy, nx, "b"})
+				}
+			}
+		}
 		for _, u := range c09Units {
 			for _, j := range joins {
 				for _, n := range lens {
